@@ -118,6 +118,29 @@ def gen_rebind_case(rng, after=False):
     return doc.encode("utf-8"), exps, {"fmt": "rss", "used": []}
 
 
+def gen_two_prefix_case(rng):
+    """ONE recognised namespace URI bound to TWO document prefixes (both on the root, or the second on the item / on the element itself -- aggregated
+    and spliced feeds do this): elements under either prefix are exposed under the canonical prefix; also an element that declares its namespace on itself"""
+    cands = [(u, p) for u, p in NS_TABLE.items() if p and p not in ("xml", "xlink", "xhtml", "rdf")]
+    uri, canon = rng.choice(cands)
+    p1, p2 = rng.sample([canon, "sl", "px", "n1", "ext"], 2)
+    l1, l2 = rng.sample(LOCALS, 2)
+    def free(loc):
+        return ("%s_%s" % (canon, loc.lower())) not in HANDLED_START and ("%s_%s" % (canon, loc.lower())) not in HANDLED_END
+    if not (free(l1) and free(l2)):
+        return None
+    where2 = rng.choice(["root", "item", "element"])
+    root_decl = ' xmlns:%s="%s"' % (p1, uri) + (' xmlns:%s="%s"' % (p2, uri) if where2 == "root" else "")
+    item_decl = ' xmlns:%s="%s"' % (p2, uri) if where2 == "item" else ""
+    el_decl = ' xmlns:%s="%s"' % (p2, uri) if where2 == "element" else ""
+    exps = [("feed", ("%s_%s" % (canon, l1)).lower(), "text", "first"), ("entry", ("%s_%s" % (canon, l2)).lower(), "text", "second")]
+    if l1.lower() == l2.lower():
+        return None
+    doc = ('<rss version="2.0"%s><channel><%s:%s>first</%s:%s><item%s><%s:%s%s>second</%s:%s></item></channel></rss>' %
+           (root_decl, p1, l1, p1, l1, item_decl, p2, l2, el_decl, p2, l2))
+    return doc.encode("utf-8"), exps, {"fmt": "rss", "used": []}
+
+
 def check_case(doc, exps, meta, loose):
     r, _log = tr.traced_parse(doc, {"content-location": BASE, "content-type": "application/xml; charset=utf-8"}, loose=loose)
     w = {"doc": doc, "exps": exps, "meta": meta, "loose": loose}
@@ -164,8 +187,9 @@ def search(ctx, focus=None):
     rng = ctx.rng
     failures, n, distinct = [], 0, set()
     for _ in range(ctx.n(1000, 30000)):
-        if rng.random() < 0.1:
-            c = gen_rebind_case(rng)
+        r0 = rng.random()
+        if r0 < 0.2:
+            c = gen_rebind_case(rng) if r0 < 0.1 else gen_two_prefix_case(rng)
             if c is None:
                 continue
             d, exps, meta = c
@@ -178,7 +202,7 @@ def search(ctx, focus=None):
     return {"evaluations": n, "distinct_nontrivial": len(distinct), "failures": failures,
             "rule": "documents with 1-4 extension elements: namespace URI from the %d-entry documented table (case-varied in 30%%) or unknown URIs x document prefix "
                     "{canonical, other} x local names (incl. mixed case, dots, dashes, 'keywords') x {text, attributes} x {feed, entry} x RSS/Atom x both back "
-                    "ends; oracle: key = lower(canonical-or-document prefix + '_' + local) holds the text / the attribute dict, and result.namespaces maps the "
+                    "ends; one recognised URI under two document prefixes (declared on the root / the item / the element itself); oracle: key = lower(canonical-or-document prefix + '_' + local) holds the text / the attribute dict, and result.namespaces maps the "
                     "(canonicalised) prefix to the declared URI; elements with dedicated handlers excluded via the frozen handler-name table" % len(URIS),
             "samples": [{"doc": gen_case(vlib.random.Random(7))[0].decode()[:300]}]}
 
